@@ -196,6 +196,7 @@ type Exec struct {
 	writerRemoved map[string]bool // owner|topic|writer removed at least once (probe)
 	maxTxID      int
 	inEpilogue   bool
+	H0           int64 // height of the (virtual) block before the first one: the chain starts at H0+1
 	touchedByFailed map[string]bool // entities named by messages of a failed multi-message transaction
 	KeepApps     bool
 	OnCommit     func(h int64) // race sub-check: called on the block goroutine after every Commit of the reference replica
@@ -231,7 +232,7 @@ func propOfSection(key string) string {
 func (e *Exec) violate(v *Violation) {
 	v.AtStep = e.stepIdx
 	if v.Height == 0 {
-		v.Height = int64(len(e.Blocks)) + 1
+		v.Height = e.head() + 1
 	}
 	e.Trace.Ev("VIOLATION prop=%s class=%s entity=%s detail=%s", v.Property, v.Class, v.Entity, trunc(v.Detail, 300))
 	if v.Entity != "" && e.tainted[v.Property+"|"+v.Entity] {
@@ -315,7 +316,7 @@ func (e *Exec) Run() {
 			if st.ID > e.maxTxID {
 				e.maxTxID = st.ID
 			}
-			e.Mempool = append(e.Mempool, &pendingTx{ID: st.ID, Spec: st.Tx, Due: int64(len(e.Blocks)) + 1 + int64(hold), Order: e.orderCtr})
+			e.Mempool = append(e.Mempool, &pendingTx{ID: st.ID, Spec: st.Tx, Due: e.head() + 1 + int64(hold), Order: e.orderCtr})
 			e.Trace.Ev("submit tx=%d hold=%d", st.ID, hold)
 		case "block":
 			e.produceBlock(st)
@@ -327,7 +328,7 @@ func (e *Exec) Run() {
 			}
 		case "lag":
 			if st.Replica > 0 && st.Replica < len(e.R) {
-				e.R[st.Replica].LagUntil = int64(len(e.Blocks)) + int64(st.Blocks)
+				e.R[st.Replica].LagUntil = e.head() + int64(st.Blocks)
 				e.Stats.Inc("fault.net.partition")
 				e.Trace.Ev("partition replica=%d until_height=%d", st.Replica, e.R[st.Replica].LagUntil)
 			}
@@ -344,7 +345,7 @@ func (e *Exec) Run() {
 		case "simulate":
 			e.simulateOnly(st)
 		case "upgrade":
-			e.nextPlan = &upgradetypes.Plan{Name: "v2.2.1", Height: int64(len(e.Blocks)) + 2, Info: "panasim"}
+			e.nextPlan = &upgradetypes.Plan{Name: "v2.2.1", Height: e.head() + 2, Info: "panasim"}
 		}
 	}
 	if !e.stop && !e.S.Config.EpilogueOff {
@@ -357,6 +358,9 @@ func (e *Exec) Run() {
 }
 
 func (e *Exec) initChain() bool {
+	if ih := e.S.Config.InitialHeight; ih > 1 {
+		e.H0 = ih - 1
+	}
 	cfgs := e.S.Config.Replicas
 	if len(cfgs) == 0 {
 		cfgs = []NodeCfg{{}}
@@ -372,7 +376,7 @@ func (e *Exec) initChain() bool {
 	var genBytes []byte
 	for i, c := range cfgs {
 		n := NewNode(i, e.Env, c, e.Scratch)
-		r := &Replica{Node: n, FirstHeight: 1, PrunedEver: c.Pruning != "nothing"}
+		r := &Replica{Node: n, FirstHeight: e.H0 + 1, Applied: e.H0, PrunedEver: c.Pruning != "nothing"}
 		e.R = append(e.R, r)
 		if err := n.Start(); err != nil {
 			e.viol("C10", "node.start_failed.genesis", "", "replica %d cannot start on an empty database: %v", i, err)
@@ -381,7 +385,7 @@ func (e *Exec) initChain() bool {
 		if i == 0 {
 			genBytes, e.Model = e.Env.BuildGenesis(n.App, &e.S.Config.Genesis)
 		}
-		req := abci.RequestInitChain{ChainId: ChainID, ConsensusParams: consensusParams(), AppStateBytes: genBytes, Time: e.Now}
+		req := abci.RequestInitChain{ChainId: ChainID, ConsensusParams: consensusParams(), AppStateBytes: genBytes, Time: e.Now, InitialHeight: e.H0 + 1}
 		r.Genesis = &req
 		_, halt := n.guard("InitChain", func() { n.App.InitChain(req) })
 		if halt != nil {
@@ -412,7 +416,7 @@ func (e *Exec) dueTxs(h int64, take int) []*pendingTx {
 }
 
 func (e *Exec) produceBlock(st *Step) {
-	h := int64(len(e.Blocks)) + 1
+	h := e.head() + 1
 	dt := st.DtNs
 	if dt <= 0 {
 		dt = int64(5 * time.Second)
@@ -440,7 +444,7 @@ func (e *Exec) produceBlock(st *Step) {
 		return
 	}
 	r0.inBlock = true
-	if hs := CustomDumpHashes(r0.DeliverStores()); h > 1 && !sameHashes(preHashes, hs) {
+	if hs := CustomDumpHashes(r0.DeliverStores()); h > e.H0+1 && !sameHashes(preHashes, hs) {
 		prop := "C10"
 		if isUpgradeBlock {
 			prop = "C19"
@@ -1691,18 +1695,18 @@ func (e *Exec) clientSideValidate(id int, bt *BuiltTx) {
 
 // hostileQuery: C17 — no query request makes a handler panic (checked on every live replica).
 func (e *Exec) hostileQuery(q *HQuery) {
-	if q == nil || e.head() < 1 {
+	if q == nil || len(e.Blocks) < 1 {
 		return
 	}
 	data, _ := hex.DecodeString(q.DataHex)
 	for _, r := range e.R {
-		if r.Dead || !r.Up || r.Applied < 1 {
+		if r.Dead || !r.Up || r.Applied < e.H0+1 {
 			continue
 		}
 		h := int64(0)
 		if q.Height < 0 && !r.PrunedEver && !r.Boot {
 			h = r.Applied + q.Height
-			if h < 1 {
+			if h < e.H0+1 {
 				h = 0
 			}
 		}
@@ -1718,11 +1722,11 @@ func (e *Exec) hostileQuery(q *HQuery) {
 
 // simulateOnly: a transaction is simulated on one replica and never broadcast. Whatever it did must be gone.
 func (e *Exec) simulateOnly(st *Step) {
-	if st.Tx == nil || e.head() < 1 || st.Replica < 0 || st.Replica >= len(e.R) {
+	if st.Tx == nil || len(e.Blocks) < 1 || st.Replica < 0 || st.Replica >= len(e.R) {
 		return
 	}
 	r := e.R[st.Replica]
-	if r.Dead || !r.Up || r.Applied < 1 || r.inBlock {
+	if r.Dead || !r.Up || r.Applied < e.H0+1 || r.inBlock {
 		return
 	}
 	blk := &Block{Height: r.Applied + 1, Time: e.Now}
@@ -1746,7 +1750,7 @@ func (e *Exec) simulateOnly(st *Step) {
 	if signers == nil {
 		signers = e.defaultSigners(msgs)
 	}
-	ctx := r.App.NewContext(true, e.Env.Header(e.Blocks[r.Applied-1].B))
+	ctx := r.App.NewContext(true, e.Env.Header(e.at(r.Applied).B))
 	var seqs, nums []uint64
 	for _, si := range signers {
 		acc := e.Env.Accs[si%len(e.Env.Accs)]
